@@ -351,6 +351,15 @@ def _set_applies(pool, op):
     return _wrap(pool, t)
 
 
+def _w_file(pool, op):
+    """A law set is a BaseObject: it can be FILED under a universe (its own `universes` list) without governing it."""
+    _, w, u = op
+    if not pool.has(u, w):
+        return SKIP
+    ww, uu = pool.get(w), pool.get(u)
+    return _wrap(pool, lambda: ww.add_to_universe(uu))
+
+
 def _adjdict(pool, op):
     _, name, cname, adj = op  # adj: [[key, [values...]], ...]
     names = [k for k, _ in adj] + [v for _, vs in adj for v in vs]
@@ -471,6 +480,7 @@ _OPS = {
     "v_rm_uni": _m("remove_from_universe"),
     "set_laws": _set_laws,
     "set_applies": _set_applies,
+    "w_file": _w_file,
     "adjdict": _adjdict,
     "adjmatrix": _adjmatrix,
     "nb": _nb,
@@ -483,5 +493,5 @@ _OPS = {
 
 MUTATORS = {"mkv", "mku", "mke", "mkl", "mkw", "setv1", "setv2", "v_add_link", "v_rm_link", "l_add_vertex",
             "l_unlink_from", "link", "unlink", "u_add", "u_rm", "v_add_uni", "v_rm_uni", "set_laws", "set_applies",
-            "adjdict", "adjmatrix"}
+            "w_file", "adjdict", "adjmatrix"}
 QUERIES = {"nb", "fl", "trav", "search", "render"}
